@@ -184,6 +184,8 @@ def run(ctx):
     first = [b for b, k in g_h.succ[lp.id] if k == 'loop']
     if first and first[0] not in [v.id for v in vnodes] and witness(g_h, first[0], [lp.id], avoid=[v.id for v in vnodes]) is not None:
       every = False
+  from .common import loop_source_unfiltered
+  loop_source_unfiltered(ctx, 'C05.hook', 'config.validate_macros_hook', 'config.iterate_references', 'macro reference')
   ctx.check(every, 'C05.hook', construct(hk), 'every macro reference found is validated (no reference is skipped)',
             'some macro references are skipped by the finalize hook (the validation is not reached on every pass through the loop): '
             'an unevaluated or unbound use of a macro that was already seen once is accepted', hk.loc(), instance='every-reference')
